@@ -57,6 +57,9 @@ namespace PSC {
 
         Context *getParent() const;
 
+        // only for the context of a record value that was copied into another variable
+        void setParent(Context *newParent);
+
         Context *getGlobalContext();
 
         const std::string &getName() const;
